@@ -58,6 +58,10 @@ theorem action_marshal_leaf (v : V) (hk : v.kind ≠ "NXActionConnTrack") : Acti
   unfold Action.marshalM Action.marshalD Action.encDepth
   rw [if_neg hk]
 
+theorem action_len_leaf (v : V) (hk : v.kind ≠ "NXActionConnTrack") : Action.lenM v = Action.lenLeaf v := by
+  unfold Action.lenM Action.lenD Action.encDepth
+  rw [if_neg hk]
+
 /-- ActionGroup -/
 theorem actionGroup_rt (ln g : Nat) (hln : ln < 65536) (hg : g < 4294967296) :
     let v := V.obj "ActionGroup" [ActionHeader.mk Gen.openflow13.ActionType_Group ln, .num g]
@@ -353,7 +357,8 @@ theorem actionSetField_rt (ln : Nat) (f : V) (hln : ln < 65536) (hf : MatchField
       (by rw [hpl]; omega), hpl]
     simp [piecesBytes, pCopyAdv, pCopy, Piece.bytes, zeros]
     rfl
-  · simp only [Action.lenM, v, V.kind]
+  · rw [action_len_leaf v (by simp [v, V.kind])]
+    simp only [Action.lenLeaf, v, V.kind]
     rw [hlenM, hbl]
     congr 2
     apply UInt16.toNat_inj.mp
